@@ -218,6 +218,16 @@ def run_program(world, prog):
                     res = -regs[op['x']]
                 elif o == 'Abs':
                     res = abs(regs[op['x']])
+                elif o == 'Clone':
+                    import copy
+                    q = regs[op['x']]
+                    c1, c2 = copy.copy(q), copy.deepcopy(q)
+                    if type(c1) is type(q) and type(c2) is type(q) and c1.unit is q.unit and c2.unit is q.unit \
+                            and c1.amount == q.amount and c2.amount == q.amount and c1 == q and c2 == q \
+                            and copy.copy(q.unit) is q.unit and copy.deepcopy(q.unit) is q.unit:
+                        res = c2
+                    else:
+                        res = 'copy-differs'
                 elif o == 'Cmp':
                     res = _CMP[op['c']](regs[op['x']], regs[op['y']])
                 elif o == 'Pow':
